@@ -620,7 +620,7 @@ func callSSA(i *interpreter, caller *frame, callpos token.Pos, fn *ssa.Function,
 			return nil
 		}
 		i.initDone[fn.Pkg] = true
-		defer i.applyEmbeds(fn.Pkg)
+		i.applyEmbeds(fn.Pkg) // //go:embed variables are set before the initialiser runs, as by the linker
 	}
 	if fn.Blocks == nil {
 		if fn.Pkg != nil {
